@@ -421,19 +421,7 @@ const WATCH_EVENTS: &[WatchEvent] = &[
 const WATCH_CONFIGS: [&str; 2] = ["{rules: [], generator: 'dense', bundle: {require_mode: 'path'}}", "{rules: ['remove_comments'], generator: 'dense', bundle: {require_mode: 'path'}}"];
 
 fn watch_binary() -> Result<PathBuf, String> {
-    // built from /repo's working tree into a target directory of its own
-    let target = PathBuf::from(crate::common::VERIF_DIR).join("target").join("darklua-bin");
-    let out = std::process::Command::new("cargo")
-        .args(["build", "--offline", "--bin", "darklua"])
-        .current_dir("/repo")
-        .env("CARGO_TARGET_DIR", &target)
-        .env("CARGO_NET_OFFLINE", "true")
-        .output()
-        .map_err(|e| format!("cannot run cargo: {}", e))?;
-    if !out.status.success() {
-        return Err(format!("building the darklua binary failed: {}", String::from_utf8_lossy(&out.stderr).lines().rev().take(15).collect::<Vec<_>>().join(" | ")));
-    }
-    Ok(target.join("debug").join("darklua"))
+    crate::dl::darklua_binary()
 }
 
 fn expected_outputs(files: &BTreeMap<String, String>) -> BTreeMap<String, String> {
